@@ -335,3 +335,14 @@ def _ctc_names_distinct(draw, j):
 GLENCOE = Profile(unicode_names(), single=("mandatory", "optional"),
                   group=("alternative", "or", "mutex", "card"), layout="one_group", group_plus_mandatory=True,
                   abstract=False, ctc_depth=3, ctc_max=4, ctc_names=_ctc_names_distinct)
+
+
+def _fide_ctc(draw, names, feats):
+    if draw(st.integers(0, 7)) == 0:
+        return ["T", draw(st.sampled_from(names))]
+    ops = ("NOT", "AND", "OR", "IMPLIES", "EQUIVALENCE", "REQUIRES", "EXCLUDES")
+    return draw(expr_of_depth(names, ops, draw(st.integers(1, 4))))
+
+
+FEATUREIDE = Profile(xml_names(), single=("mandatory", "optional"), group=("alternative", "or"),
+                     layout="one_group", abstract=True, ctc_max=6, ctc_expr=_fide_ctc)
